@@ -47,6 +47,32 @@ struct MachineRuntime<T: crate::time::Instant> {
     counter_b: u64,
 }
 
+/// One internal machine step, recorded when the `verif` feature is enabled.
+#[cfg(feature = "verif")]
+#[derive(Debug, Clone, PartialEq, Eq)]
+pub struct VerifStep {
+    pub machine: usize,
+    pub event: Event,
+    pub from_state: usize,
+    pub live: bool,
+    pub target: Option<usize>,
+}
+
+/// Read-only copy of the runtime state, available with the `verif` feature.
+#[cfg(feature = "verif")]
+#[derive(Debug, Clone)]
+pub struct VerifSnapshot<T: crate::time::Instant> {
+    /// per machine: (current_state, state_limit, padding_sent, normal_sent, blocking_duration, counter_a, counter_b)
+    pub machines: Vec<(usize, u64, u64, u64, T::Duration, u64, u64)>,
+    pub normal_sent_packets: u64,
+    pub padding_sent_packets: u64,
+    pub blocking_duration: T::Duration,
+    pub blocking_started: T,
+    pub blocking_active: bool,
+    /// None: nothing pending; Some(None): all; Some(Some(i)): all except i
+    pub signal_pending: Option<Option<usize>>,
+}
+
 #[derive(PartialEq)]
 enum StateChange {
     Changed,
@@ -99,6 +125,8 @@ where
     // only allow each counter to be zeroed once per trigger_events call
     counter_zeroed_once: (bool, bool),
     framework_start: T,
+    #[cfg(feature = "verif")]
+    verif_steps: Vec<VerifStep>,
 }
 
 impl<M, R, T> Framework<M, R, T>
@@ -169,6 +197,8 @@ where
             normal_sent_packets: 0,
             signal_pending: None,
             counter_zeroed_once: (false, false),
+            #[cfg(feature = "verif")]
+            verif_steps: Vec::new(),
         };
 
         for (runtime, machine) in s.runtime.iter_mut().zip(s.machines.as_ref().iter()) {
@@ -178,6 +208,43 @@ where
         }
 
         Ok(s)
+    }
+
+    /// Internal machine steps of the most recent call (feature `verif`).
+    #[cfg(feature = "verif")]
+    pub fn verif_steps(&self) -> &[VerifStep] {
+        &self.verif_steps
+    }
+
+    /// Read-only snapshot of the runtime state (feature `verif`).
+    #[cfg(feature = "verif")]
+    pub fn verif_snapshot(&self) -> VerifSnapshot<T> {
+        VerifSnapshot {
+            machines: self
+                .runtime
+                .iter()
+                .map(|r| {
+                    (
+                        r.current_state,
+                        r.state_limit,
+                        r.padding_sent,
+                        r.normal_sent,
+                        r.blocking_duration,
+                        r.counter_a,
+                        r.counter_b,
+                    )
+                })
+                .collect(),
+            normal_sent_packets: self.normal_sent_packets,
+            padding_sent_packets: self.padding_sent_packets,
+            blocking_duration: self.blocking_duration,
+            blocking_started: self.blocking_started,
+            blocking_active: self.blocking_active,
+            signal_pending: self.signal_pending.as_ref().map(|s| match s {
+                SignalTarget::All => None,
+                SignalTarget::AllExcept(i) => Some(*i),
+            }),
+        }
     }
 
     /// Returns the number of machines in the framework.
@@ -208,6 +275,9 @@ where
         events: &[TriggerEvent],
         current_time: T,
     ) -> impl Iterator<Item = &TriggerAction<T>> {
+        #[cfg(feature = "verif")]
+        self.verif_steps.clear();
+
         // reset all actions
         self.actions.fill(None);
 
@@ -370,6 +440,17 @@ where
     }
 
     fn transition(&mut self, mi: usize, event: Event) -> StateChange {
+        #[cfg(feature = "verif")]
+        let verif_idx = {
+            self.verif_steps.push(VerifStep {
+                machine: mi,
+                event,
+                from_state: self.runtime[mi].current_state,
+                live: self.runtime[mi].current_state != STATE_END,
+                target: None,
+            });
+            self.verif_steps.len() - 1
+        };
         // a machine in end state cannot transition
         if self.runtime[mi].current_state == STATE_END {
             return StateChange::Unchanged;
@@ -382,6 +463,11 @@ where
             let state = &machine.states[self.runtime[mi].current_state];
             state.sample_state(event, &mut self.rng)
         };
+
+        #[cfg(feature = "verif")]
+        {
+            self.verif_steps[verif_idx].target = next_state;
+        }
 
         // if no next state on event, done
         let Some(next_state) = next_state else {
